@@ -208,10 +208,14 @@ class HexText:
         if n.lo < 0:
             if (n < 0):
                 raise bv.Inconclusive("negative number formatted as hex")
-        d = mindigits
-        while not (n < (1 << (4 * d))):  # path decision per digit count
-            d += 1
-        self.digits = d
+        lo, hi = mindigits, max(mindigits, (max(n.hi, 1).bit_length() + 3) // 4)
+        while lo < hi:  # number of hex digits: binary search by path decisions
+            mid = (lo + hi) // 2
+            if n < (1 << (4 * mid)):
+                hi = mid
+            else:
+                lo = mid + 1
+        self.digits = lo
 
     def encode(self, *a):
         return self
